@@ -294,6 +294,7 @@ Definition rf_doc_case (id : N) (misc mailfrom helo ip rcpts dns : bytes) (files
   let userdir := N.testbit (m 0) 0 in
   if has_nul mailfrom || has_nul helo || has_nul rcpts || negb (Nat.eqb (length ip) 16)
      || match helo with [] => true | _ => false end || Nat.ltb 60 (length files)
+     || negb (bytes_okb ip) || negb (forallb bytes_okb files)            (* octets *)
   then None else
   match decode_files userdir files with
   | None => None
